@@ -61,8 +61,15 @@ void harness(void) {
   uint64_t k = in_range(0, N - 1);
 #endif
   const uint64_t full = flen_;
-  uint64_t tlen = in_range(0, full);
+  /* truncation: inside the text header the length is a concrete cell (TLEN) - a symbolic cut there makes the parsed
+   * dimensions, hence the malloc size, symbolic; inside the samples it is symbolic in [header length, full] */
+#ifdef TLEN
+  uint64_t tlen = TLEN < full ? TLEN : full;
   file_rewind(tlen);
+#else
+  uint64_t tlen = in_range(0, full);
+  file_rewind_min(tlen, hn);
+#endif
   r = w_load(1, HFILE);
   OBS(r);
   if (tlen == full) ASSERT(r == 0, "the complete file loads");
